@@ -317,7 +317,7 @@ def _job_conc(job):
 
     st = explorer.explore(factory, case, bound, max_execs=50000, max_passes=500, on_exec=on_exec)
     if st["truncated"]:
-        part.cap(f"execution cap hit for {case['name']}")
+        part.cap(f"execution cap hit for {case['name']} (complete up to bound {st['completed_bound']}, {st['executions']} executions reported)")
     part.sample({"case": case["name"], "bound": bound, "executions": st["executions"]})
     return part
 
